@@ -1365,7 +1365,9 @@ def _sympy_to_BlockSeries(
 
     """
     if not symbols:
-        symbols = tuple(list(operator.free_symbols))  # All symbols are perturbative
+        # All symbols are perturbative; sorted by name like the keys of a symbolic
+        # dictionary, so that the order of the parameters does not depend on hashing.
+        symbols = tuple(sorted(operator.free_symbols, key=lambda symbol: symbol.name))
     if any(n not in operator.free_symbols for n in symbols):
         raise ValueError("Not all perturbative parameters are in `hamiltonian`.")
 
